@@ -110,6 +110,24 @@ theorem handlers_cannot_outlive_cancel (st : State) (hl : Live st) (hst : st.ste
       (.err (timeoutErr h0), tick (tick (s1.newScope env [(x, caughtValue e)]).1)) :=
   try_body_timeout hl hst hm hx F body hne h0 hs f0 fs d e s1 hbody hc1
 
+/-- In general — whatever the clauses of the try form are, whatever result `r` its body ended with — a try
+    form whose body ended in a cancelled state returns after AT MOST TWO more polls (one in the handler, one in
+    the finally body), still cancelled, with no `trace!` effect, mark or atom write (`AfterDeadline s s' k`). -/
+theorem try_adds_at_most_two_polls (s1 : State) (hc : Cancelled s1) (hs : s1.stepper = none) (F : Nat)
+    (parts : TryParts) (env d : Nat) (r : Res Val) :
+    AfterDeadline s1 (finallyStage F parts env d (handlerStage F parts env d (r, s1))).2 2 :=
+  try_afterDeadline hc hs F parts env d r
+
+/-- Outside `try`, an error (the timeout) unwinds WITHOUT further polls: sequences, `let`, `if`, `def`,
+    applications and builtin callbacks return it in the state the failing sub-evaluation left. -/
+theorem errors_unwind_without_polling (F : Nat) (st : State) (env d : Nat) (e : Err) (s1 : State) (x : Val)
+    (h : eval F st env x (d + 1) = (.err e, s1)) :
+    (∀ xs, evalList (F + 1) st env (x :: xs) d = (.err e, s1)) ∧
+    (∀ name p rest a1, letBinds (F + 1) st env (.sym name p :: x :: rest) a1 d = (.err e, s1)) ∧
+    (∀ lst a2, ifArm F st env lst x a2 d = (.err e, s1)) ∧
+    (∀ a1 ast, defArm F st env a1 x ast d = (.err e, s1)) :=
+  ⟨fun xs => evalList_cons_err h xs, fun _ _ _ _ => letBinds_err h, fun _ _ => ifArm_err h, fun _ _ => defArm_err h⟩
+
 /-! ### non-vacuity: concrete programs on `initState` with a deadline -/
 
 /-- `(do (trace! 1) (trace! 2) (trace! 3))` with the context cancelled from poll 4 on: the first effect
@@ -128,5 +146,19 @@ example :
       .list [.sym "catch" none, .sym "e" none, t 9] none, .list [.sym "finally" none, t 8] none] none
     let r := eval 100 { initState with cancelAt := some 6 } 0 prog 0
     ((r.1 matches .err _) && r.2.trace.length == 1) = true := by decide +kernel
+
+/-- The bound is two polls per try frame that is live when the deadline passes: with `f` spinning forever
+    (`(def f (fn () (f)))`) inside `k` nested `(try … (catch e 1) (finally 2))` forms and the context
+    cancelled from poll 50 on, `EVAL` returns the timeout error at poll `51 + 2·k` (`k = 0, 1, 2, 3`). -/
+example :
+    let sy (s : String) : Val := .sym s none
+    let ls (xs : List Val) : Val := .list xs none
+    let spin := ls [sy "def", sy "f", ls [sy "fn", ls [], ls [sy "f"]]]
+    let wrap (b : Val) : Val := ls [sy "try", b, ls [sy "catch", sy "e", .int 1], ls [sy "finally", .int 2]]
+    let run (body : Val) : R := eval 2000 { initState with cancelAt := some 50 } 0 (ls [sy "do", spin, body]) 0
+    let f := ls [sy "f"]
+    ((run f).2.ticks == 51 && (run (wrap f)).2.ticks == 53 && (run (wrap (wrap f))).2.ticks == 55 &&
+      (run (wrap (wrap (wrap f)))).2.ticks == 57 && ((run (wrap (wrap (wrap f)))).1 matches .err _)) = true := by
+  decide +kernel
 
 end LispModel.Props.C07
